@@ -20,6 +20,7 @@ mod ops12;
 mod ops13;
 mod ops14;
 mod ops15;
+mod ops16;
 
 fn main() {
     std::panic::set_hook(Box::new(|_| {}));
